@@ -9,7 +9,7 @@ From Soy Require Import Model.Bytes Model.Num Model.Outcome Model.Values.
 Import ListNotations.
 Open Scope N_scope.
 
-Definition vkind (v : value) : Z :=
+Definition st_vkind (v : value) : Z :=
   match v with
   | VUndef => 0 | VNull => 1 | VBool _ => 2 | VInt _ => 3 | VFloat _ => 4 | VStr _ => 5 | VList _ _ => 6 | VMap _ _ => 7
   end%Z.
